@@ -28,20 +28,20 @@ RECURSIVE Closed(_, _), AllClosed(_, _)
 Closed(st, id) ==
   IF id = 0 THEN 1
   ELSE LET s == st.subs[id] IN
-  CASE s.k = "slot" -> IF st.nodes[s.a].h # 0 THEN 2 ELSE IF st.nodes[s.a].f THEN 0 ELSE 1
+  CASE s.k = "slot" -> IF RHeld(st.nodes[s.a]) THEN 2 ELSE IF st.nodes[s.a].f THEN 0 ELSE 1
     [] s.k = "zip" -> LET ca == Closed(st, s.a) IN IF ca # 1 THEN ca ELSE Closed(st, s.b)   \* a.is_closed() && b.is_closed()
     [] s.k = "multi" ->
-         IF st.nodes[s.a].h # 0 THEN 2
+         IF RHeld(st.nodes[s.a]) THEN 2
          ELSE IF ~st.nodes[s.a].f THEN 1 ELSE AllClosed(st, st.nodes[s.a].q)
-    [] s.k = "task" -> IF st.nodes[s.a].h # 0 THEN 2 ELSE IF st.nodes[s.a].g THEN 1 ELSE 0
+    [] s.k = "task" -> IF RHeld(st.nodes[s.a]) THEN 2 ELSE IF st.nodes[s.a].g THEN 1 ELSE 0
     [] s.k = "tasksub" ->
-         IF st.nodes[s.a].h # 0 THEN 2
+         IF RHeld(st.nodes[s.a]) THEN 2
          ELSE IF st.nodes[s.a].g THEN Closed(st, st.nodes[s.a].n) ELSE 0
     [] s.k = "fin" -> Closed(st, s.a)
     [] s.k = "refcnt" -> Closed(st, s.b)
-    [] s.k = "optcell" -> IF st.nodes[s.a].h # 0 THEN 2 ELSE IF st.nodes[s.a].f THEN 0 ELSE 1
+    [] s.k = "optcell" -> IF RHeld(st.nodes[s.a]) THEN 2 ELSE IF st.nodes[s.a].f THEN 0 ELSE 1
     [] s.k = "subject" ->
-         IF st.nodes[ONode(st, s.a)].h # 0 THEN 2 ELSE IF st.nodes[ONode(st, s.a)].f THEN 0 ELSE 1
+         IF RHeld(st.nodes[ONode(st, s.a)]) THEN 2 ELSE IF st.nodes[ONode(st, s.a)].f THEN 0 ELSE 1
     [] OTHER -> 1
 AllClosed(st, ids) ==
   IF ids = <<>> THEN 1
